@@ -111,6 +111,10 @@ impl DamageWorkload {
             FileSpec { kind: "fits64".into(), k: 37, single_strand: false, n: 2, len: 0, gen_seed: g(3) },
             FileSpec { kind: "weeded64".into(), k: 21, single_strand: false, n: 3, len: 110, gen_seed: g(4) },
             FileSpec { kind: "multiframe".into(), k: 31, single_strand: false, n: 8, len: 2700, gen_seed: g(5) },
+            // one sample, ~4000 rows at k=63: the k-mer list alone fills a 64 KiB frame with random
+            // 124-bit values, which snappy stores as an UNCOMPRESSED chunk (checksummed, but handled
+            // on another code path of the decoder)
+            FileSpec { kind: "stored128".into(), k: 63, single_strand: true, n: 1, len: 4200, gen_seed: g(9) },
         ];
         if tier == Tier::Thorough {
             v.push(FileSpec { kind: "small128k63".into(), k: 63, single_strand: false, n: 2, len: 200, gen_seed: g(6) });
@@ -122,6 +126,8 @@ impl DamageWorkload {
     fn slices(kind: &str) -> usize {
         if kind.starts_with("multiframe") {
             96
+        } else if kind == "stored128" {
+            128
         } else {
             4
         }
@@ -131,7 +137,9 @@ impl DamageWorkload {
         let files = self.files(tier);
         for f in &files {
             let s = Self::slices(&f.kind);
-            let complete = true;
+            // the large stored-chunk file is sampled at the quick tier (every byte with one seeded bit,
+            // every 16th prefix) and enumerated completely at the thorough tier
+            let complete = tier == Tier::Thorough || f.kind != "stored128";
             for i in 0..s {
                 v.push((f.clone(), Mode::Loads { slice: i, of: s, prefix_every: if complete { 1 } else { 16 }, all_bits: complete, bit_seed: mix(self.base, i as u64) }));
             }
@@ -201,9 +209,25 @@ impl<'a> Ex<'a> {
         for s in &samples {
             self.dir.write(&s.file(), &s.bytes());
         }
-        let r = self.run_seeded(self.build_args("orig", &samples), self.c.file.gen_seed >> 1, None)?;
-        if !r.ok() {
-            return Ok(None);
+        // the stored-chunk file: whether snappy stores or compresses the k-mer block is borderline and
+        // depends on the row (hash) order, so the first of a few fixed hash seeds that yields a stored
+        // chunk is used
+        let tries = if self.c.file.kind == "stored128" { 8 } else { 1 };
+        for t in 0..tries {
+            let r = self.run_seeded(self.build_args("orig", &samples), (self.c.file.gen_seed >> 1) + t, None)?;
+            if !r.ok() {
+                return Ok(None);
+            }
+            let d = self.dir.read("orig.skf").unwrap_or_default();
+            let mut pos = 0;
+            let mut stored = false;
+            while pos + 4 <= d.len() {
+                stored |= d[pos] == 0x01;
+                pos += 4 + (d[pos + 1] as usize | (d[pos + 2] as usize) << 8 | (d[pos + 3] as usize) << 16);
+            }
+            if stored || tries == 1 {
+                break;
+            }
         }
         if self.c.file.kind == "weeded64" {
             // a file carrying hidden state (counts made with --filter-ambig-as-missing)
@@ -252,14 +276,15 @@ impl Workload for DamageWorkload {
     fn level(&self) -> &'static str {
         "fault_enumeration"
     }
-    fn exhaustive(&self, _tier: Tier) -> bool {
-        true
+    fn exhaustive(&self, tier: Tier) -> bool {
+        // quick: complete for five of the six files, the sixth is sampled
+        tier == Tier::Thorough
     }
     fn runs_needed(&self, tier: Tier) -> Option<u64> {
         Some(self.plan(tier).len() as u64)
     }
     fn rule(&self) -> String {
-        "fault enumeration over five valid files produced by real simulated processes (64-bit k=15, 128-bit k=41, k=37 whose k-mers fit in 64 bits, a 64-bit file rewritten in place by weed --filter-ambig-as-missing, and a k=31 file of two compression frames): every proper prefix and every single-bit flip (complete for every listed file at both tiers = exhaustive; thorough adds a k=63 file, a k=5 file and a 128-bit file of several frames, and more subcommand / crash samples) is given to MergeSkaArray::<u64>::load and ::<u128>::load; a seeded sample of images goes to every subcommand as simulated processes; crash_at_byte(n) is injected into real build/merge/delete/weed writers. evaluations = loader calls + subcommand executions on damaged images; distinct_nontrivial = distinct damaged images (file, prefix length | byte, bit) - every one is non-trivial because it differs from the valid file".into()
+        "fault enumeration over six valid files produced by real simulated processes (64-bit k=15, 128-bit k=41, k=37 whose k-mers fit in 64 bits, a 64-bit file rewritten in place by weed --filter-ambig-as-missing, a k=31 file of two compression frames, and a k=63 one-sample file whose chunk snappy stores uncompressed): every proper prefix and every single-bit flip (complete for the first five files at both tiers; the sixth, 80 KB, is sampled at the quick tier - every byte with one seeded bit, every 16th prefix - and complete at the thorough tier, which is therefore the exhaustive one; thorough also adds a k=63 file, a k=5 file and a 128-bit file of several frames, and more subcommand / crash samples) is given to MergeSkaArray::<u64>::load and ::<u128>::load; a seeded sample of images goes to every subcommand as simulated processes; crash_at_byte(n) is injected into real build/merge/delete/weed writers. evaluations = loader calls + subcommand executions on damaged images; distinct_nontrivial = distinct damaged images (file, prefix length | byte, bit) - every one is non-trivial because it differs from the valid file".into()
     }
     fn assumptions(&self) -> Vec<String> {
         vec![
@@ -308,6 +333,18 @@ impl Workload for DamageWorkload {
         let nframes = frame_ends(&orig).len().saturating_sub(1);
         probe(&format!("c19_{}_data_chunks_{}", c.file.kind, nframes));
         let reg = regions(&orig);
+        {
+            let mut pos = 0;
+            while pos + 4 <= orig.len() {
+                let len = orig[pos + 1] as usize | (orig[pos + 2] as usize) << 8 | (orig[pos + 3] as usize) << 16;
+                match orig[pos] {
+                    0x00 => probe(&format!("c19_{}_has_compressed_chunk_of_{}k", c.file.kind, len / 1024)),
+                    0x01 => probe(&format!("c19_{}_has_uncompressed_chunk_of_{}k", c.file.kind, len / 1024)),
+                    _ => {}
+                }
+                pos += 4 + len;
+            }
+        }
         let img = dir.p("img.skf");
         let imgp = img.to_str().unwrap().to_string();
         // verdict of the two loaders on a damaged image: Err(msg) = accepted as different data
